@@ -219,11 +219,16 @@ class ExplorerScriptSsbDecompiler:
             # Jump as part of a control structure
             self.write_stmnt(f"jump @label_{label_id};")
 
-    def source_map_add_opcode(self, op_offset: int) -> None:
-        """Has to be called BEFORE writing the opcode."""
+    def source_map_add_opcode(self, op_offset: int, continues_line: bool = False) -> None:
+        """
+        Has to be called BEFORE writing the opcode.
+        continues_line must be set, if the statement is appended to the current line instead of starting a new one.
+        """
         assert self.smb is not None
-        # TODO: Assumes that all statements start in a new line after indent.
-        #       Might need this more flexible.
+        if continues_line:
+            current_line = self._output[self._output.rfind("\n") + 1 :]
+            self.smb.add_opcode(op_offset, self._line_number - 1, len(current_line))
+            return
         self.smb.add_opcode(op_offset, self._line_number, self.indent * NUMBER_OF_SPACES_PER_INDENT)
 
     def source_map_add_position_mark(self, length: int, param: SsbOpParamPositionMarker) -> None:
